@@ -64,6 +64,10 @@ pub const VALID_EXPRS: &[&str] = &[
     // 48: author ids on a token that is lifted into a new mmultiscripts (empty base of the following script)
     "<math><mi id='x'>X</mi><msup id='s'><mrow/><mn id='two'>2</mn></msup></math>",
     "<math><mrow id='r'><msub id='sb'><mrow/><mn id='pre'>2</mn></msub><mi id='h'>H</mi><msup><mrow/><mo id='pl'>+</mo></msup></mrow></math>",
+    // 50: multi-letter capital identifiers (capital-word indicators in braille), alone and in context
+    "<math><mi>AB</mi></math>",
+    "<math><mi>ABC</mi><mo>=</mo><mi>DE</mi><mo>+</mo><mi mathvariant='bold'>XY</mi></math>",
+    "<math><mtext>AB</mtext><mo>&#x2225;</mo><mtext>CD</mtext></math>",
 ];
 
 /// Index of an expression with a character that only the *full* Unicode tables contain
